@@ -42,9 +42,22 @@ impl SimulationBoundary {
         // the mirror image (through the far wall) of a generator lying exactly on the near
         // wall is anchor + 2 * width. Use a slightly larger domain, so that both ends map
         // strictly inside [1, 2).
+        // The in-sphere predicate evaluated on the integer grid is only equivalent to the one on the
+        // original positions if the map to the grid is a similarity: all active dimensions must be
+        // rescaled with the *same* factor (an anisotropic rescaling maps spheres to ellipsoids).
+        let max_width = match dimensionality {
+            Dimensionality::OneD => width.x,
+            Dimensionality::TwoD => width.x.max(width.y),
+            Dimensionality::ThreeD => width.max_element(),
+        };
+        let scale_width = match dimensionality {
+            Dimensionality::OneD => DVec3::new(max_width, width.y, width.z),
+            Dimensionality::TwoD => DVec3::new(max_width, max_width, width.z),
+            Dimensionality::ThreeD => DVec3::splat(max_width),
+        };
         Self {
             anchor: anchor - 1.5 * width,
-            inverse_width: 1. / (4. * width),
+            inverse_width: 1. / (4. * scale_width),
             dimensionality,
             clipping_planes,
         }
